@@ -18,7 +18,7 @@ EXTENDS Naturals, FiniteSets, Sequences, TLC, Json
 
 CONSTANTS
   Dev,        \* set of named deviations of the code from the design that are modelled (empty = intended design)
-  Cfg,        \* the configuration of this instance (a record, see MC_*.cfg)
+  CfgSpace,   \* the set of configurations to explore (records, see the generated MCRev.tla); one is chosen in Init
   MaxSteps,   \* bound on behaviour length (0 = unbounded; the abstraction is finite anyway)
   Export      \* print every edge for the replay harness
 
@@ -47,6 +47,8 @@ Parseable(d) == d.q = "valid"
 Fetchable(d) == d.q # "down"
 
 (* ---- configuration ------------------------------------------------------ *)
+VARIABLE cfg       \* the configuration of this instance, chosen in Init and never changed
+Cfg == cfg
 \* Cfg == [mode, sig, strict, fetch, disk, trustA, conf, ocsp, aia]
 \*  mode  \in {"unset","prefer_ocsp","prefer_crl","crl_only","ocsp_only","disabled"}
 \*  sig   \in {"none","verify_log","verify"}      fetch \in {"actively","background"}
@@ -66,7 +68,7 @@ VARIABLES
   known,      \* ghost: [Locs -> BOOLEAN] the running instance knows l (configured, or seen in a CDP since start)
   out,        \* observable result of the last action
   steps
-vars == <<phase, ent, bg, accepted, verified, known, out, steps>>
+vars == <<cfg, phase, ent, bg, accepted, verified, known, out, steps>>
 
 Empty == [present |-> FALSE, loaded |-> FALSE, keys |-> {}, meta |-> FALSE, locs |-> FALSE, signer |-> "none",
           sigFailed |-> FALSE, pending |-> "none", ctx |-> {}]
@@ -153,9 +155,9 @@ Step == (MaxSteps = 0 \/ steps < MaxSteps) /\ steps' = IF MaxSteps = 0 THEN 0 EL
 Loaded(en) == [l \in Locs |-> en[l].present /\ en[l].loaded]
 Fet0 == [l \in Locs |-> 0]
 
-Emit(op, o) == Export => PrintT(<<"EDGE", ToJson([from |-> [phase |-> phase, ent |-> ent, bg |-> bg, accepted |-> accepted, verified |-> verified, known |-> known],
+Emit(op, o) == Export => PrintT(<<"EDGE", ToJson([from |-> [cfg |-> cfg, phase |-> phase, ent |-> ent, bg |-> bg, accepted |-> accepted, verified |-> verified, known |-> known],
                                                     op |-> op,
-                                                    to |-> [phase |-> phase', ent |-> ent', bg |-> bg', accepted |-> accepted', verified |-> verified', known |-> known'],
+                                                    to |-> [cfg |-> cfg, phase |-> phase', ent |-> ent', bg |-> bg', accepted |-> accepted', verified |-> verified', known |-> known'],
                                                     expect |-> o])>>)
 
 Ghost(o) == [o EXCEPT !.listed = [c \in {"c1", "c2", "c3"} |-> Listed(CertById(c))'],
@@ -282,12 +284,23 @@ Restart ==
         /\ out' = NoOut
   /\ Emit(<<"cleanup">>, out')
 
-Next == \/ \E d \in DocsU \cup {Down} : Provision(d)
-        \/ \E o \in [Locs -> Docs] : BgLoad(o) \/ RefreshAll(o)
-        \/ Restart
-        \/ \E c \in Certs, d \in Docs : Handshake(c, d)
+\* ---- a handshake without any verified chain: nothing to check, nothing touched ------------------------
+HandshakeNoChain ==
+  /\ phase = "up" /\ Step
+  /\ UNCHANGED <<phase, ent, bg, accepted, verified, known>>
+  /\ out' = Ghost([kind |-> "handshake", cert |-> "nochain", verdict |-> "accept", cause |-> "nochain", loaded |-> Loaded(ent), fetch |-> Fet0,
+                   listed |-> <<>>, inforce |-> <<>>, intake |-> "none"])
+  /\ Emit(<<"handshake-nochain">>, out')
 
-Init == /\ phase = "new"
+Next == /\ \/ \E d \in DocsU \cup {Down} : Provision(d)
+           \/ \E o \in [Locs -> Docs] : BgLoad(o) \/ RefreshAll(o)
+           \/ Restart
+           \/ \E c \in Certs, d \in Docs : Handshake(c, d)
+           \/ HandshakeNoChain
+        /\ UNCHANGED cfg
+
+Init == /\ cfg \in CfgSpace
+        /\ phase = "new"
         /\ ent = [l \in Locs |-> Empty] /\ bg = FALSE
         /\ accepted = [l \in Locs |-> NoDoc] /\ verified = [l \in Locs |-> FALSE] /\ known = [l \in Locs |-> FALSE]
         /\ out = NoOut /\ steps = 0
@@ -321,6 +334,6 @@ Promise(c, en) ==
   IN IF o # "accept" THEN o ELSE r
 ModePromise == [][\A c \in Certs : HS(c) => out'.verdict = Promise(c, ent')]_vars
 ProvisionLoads == (phase = "up" /\ CrlOn /\ Cfg.conf # "none") => (ent["U"].present /\ ent["U"].loaded)
-View == <<phase, ent, bg, accepted, verified, known>>
+View == <<cfg, phase, ent, bg, accepted, verified, known>>
 TypeOK == phase \in {"new", "up", "failed"} /\ bg \in BOOLEAN
 =============================================================================
